@@ -133,7 +133,7 @@ func c12RealBackends(ctx *Ctx) {
 		if kind == "cmd-writeonly" {
 			k = "cmd" // no getPwm command: fan2go cannot read the value back
 		}
-		sc := &Scenario{Fan: FanSpec{Kind: k, HomePath: home, ViaLoader: r.Intn(3) == 0, HasPwm: kind != "cmd-writeonly", HasEnable: kind == "hwmon", CmdOneTool: k == "cmd" && r.Intn(2) == 0}, Plant: PlantSpec{Kind: "const", Const: 1200}, Loop: LoopSpec{Kind: "direct"},
+		sc := &Scenario{Fan: FanSpec{Kind: k, HomePath: home, ViaLoader: r.Intn(3) == 0, HasPwm: kind != "cmd-writeonly", HasEnable: kind == "hwmon", CmdOneTool: k == "cmd" && r.Intn(2) == 0, CmdPadded: k == "cmd" && r.Intn(2) == 0}, Plant: PlantSpec{Kind: "const", Const: 1200}, Loop: LoopSpec{Kind: "direct"},
 			Map: pick(r, MapSpec{Kind: "readme"}, MapSpec{Kind: "hundred"}, genMap(r, false), genMap(r, false)), Window: 1, InitPwm: r.Intn(256), InitMode: 2, PriorRpm: 1200}
 		n := 40
 		if k == "cmd" {
@@ -204,6 +204,32 @@ func c12RealBackends(ctx *Ctx) {
 	}
 }
 
+// c12PaddedReadback: a cmd fan whose read-back tool prints fixed-width, zero-padded decimals ("064"); requests that are
+// the octal / other-base misreadings of the value the fan currently holds must still be written.
+func c12PaddedReadback(ctx *Ctx) {
+	sc := &Scenario{Fan: FanSpec{Kind: "cmd", HasPwm: true, CmdPadded: true}, Plant: PlantSpec{Kind: "const", Const: 1200}, Loop: LoopSpec{Kind: "direct"},
+		Map: MapSpec{Kind: "identity"}, Window: 1, InitPwm: 100, InitMode: 2, PriorRpm: 1200}
+	for _, c := range []int{64, 52, 12, 10, 77, 63, 100, 64, 52, 17, 15, 8, 7, 70, 56} {
+		sc.Steps = append(sc.Steps, CycleStep{Curve: c, DtMs: 200})
+	}
+	ok := 0
+	runScenario(ctx, sc, func(w *World, rec *CycleRecord) bool {
+		ctx.Eval(1)
+		if rec.Err != nil || rec.Panic != "" || !rec.HasRequest {
+			return rec.Panic != ""
+		}
+		if rec.DevPwmAfter != rec.Request {
+			ctx.Violation("real-backend:device-not-at-nearest-supported-value:cmd-zero-padded-read-back", fmt.Sprintf("cycle %d: request %d, the fan holds %d (it held %d before; its tool prints %03d)", rec.Idx, rec.Request, rec.DevPwmAfter, rec.DevPwmBefore, rec.DevPwmBefore), sc)
+			return true
+		}
+		ok++
+		return false
+	})
+	if ok > 10 {
+		ctx.Nontrivial("real-backend|cmd-zero-padded-read-back")
+	}
+}
+
 // enumerate all maps over the key subset `keys` with a run partition given by
 // bits (bit i set = new run starts at key i+1) and strictly increasing outputs
 func c12MapFor(keys []int, bits int) map[int]int {
@@ -254,6 +280,7 @@ func init() {
 			c12RealBackends(ctx)
 			if i%8 == 0 {
 				c12Concurrent(ctx)
+				c12PaddedReadback(ctx)
 			}
 		}
 		// random part: full-size, non-monotonic, constant, single-entry maps
